@@ -1,2 +1,3 @@
 pub mod evidence;
 pub mod props;
+pub mod poolmc;
